@@ -479,6 +479,8 @@ common::register! {
     q_bye = bye::<_, 64> => 2,
     q_rr = rr::<_, 64> => 2,
     q_sr = sr::<_, 64> => 2,
+    q_rr_full = rr::<_, 776> => 2,
+    q_sr_full = sr::<_, 796> => 2,
     q_report_block = report_block => 2,
     q_unknown = unknown::<_, 64> => 2,
     q_unknown_try_as = unknown_try_as::<_, 32> => 2,
